@@ -70,6 +70,17 @@ fn thread_states(tids: &[i32]) -> Vec<char> {
         .collect()
 }
 
+// Hook H6: the queue reports the wait-list index each call was linked at, on the calling thread.
+thread_local! {
+    static CURRENT_INPUT: std::cell::Cell<u64> = const { std::cell::Cell::new(u64::MAX) };
+}
+static LINKS: Mutex<Vec<(u64, u64)>> = Mutex::new(Vec::new());
+
+fn on_link(index: u64) {
+    let id = CURRENT_INPUT.with(|c| c.get());
+    LINKS.lock().unwrap().push((index, id));
+}
+
 /// Returns Err(signature, message); a deadlock makes the caller exit the process after reporting.
 fn queue_run(rng: &mut Rng, rep: &mut Report, run_no: u64) -> (u64, bool, serde_json::Value, Result<(), (String, String)>, bool) {
     let threads = 2 + rng.usize(14);
@@ -81,6 +92,8 @@ fn queue_run(rng: &mut Rng, rep: &mut Report, run_no: u64) -> (u64, bool, serde_
     };
     let spin = *rng.pick(&[0u32, 50, 2000, 20000]);
     let queue = Arc::new(WorkCoalescingQueue::new(RecordingCore { policy, batches: Vec::new(), spin }));
+    LINKS.lock().unwrap().clear();
+    sync42::work_coalescing_queue::verif::set_on_link(Some(on_link));
     let clock = Arc::new(AtomicU64::new(0));
     let done = Arc::new(AtomicU64::new(0));
     let tids = Arc::new(Mutex::new(Vec::<i32>::new()));
@@ -96,6 +109,7 @@ fn queue_run(rng: &mut Rng, rep: &mut Report, run_no: u64) -> (u64, bool, serde_
             for i in 0..per_thread {
                 let id = ((t as u64) << 32) | i as u64;
                 let invoke = clock.fetch_add(1, Ordering::SeqCst);
+                CURRENT_INPUT.with(|c| c.set(id));
                 let out = queue.do_work(id);
                 let ret = clock.fetch_add(1, Ordering::SeqCst);
                 mine.push((id, invoke, ret, out));
@@ -206,6 +220,21 @@ fn queue_run(rng: &mut Rng, rep: &mut Report, run_no: u64) -> (u64, bool, serde_
                     return Err(("queue:order".into(), format!("thread's calls {:#x} then {:#x} were processed out of order", w[0].0, w[1].0)));
                 }
             }
+        }
+        // exact entry order (hook H6): the core must see the inputs in the order the calls were
+        // linked into the queue's wait list
+        let mut links = std::mem::take(&mut *LINKS.lock().unwrap());
+        links.sort();
+        if links.len() as u64 == total {
+            rep.count("queue.calls_with_known_entry_index", total);
+            let processed: Vec<u64> = core.batches.iter().flatten().copied().collect();
+            for (i, (index, id)) in links.iter().enumerate() {
+                if processed[i] != *id {
+                    return Err(("queue:entry-order".into(), format!("the call that entered the queue at index {index} (input {id:#x}) was processed at position {} instead of {i}; position {i} holds {:#x}", processed.iter().position(|x| x == id).unwrap_or(usize::MAX), processed[i])));
+                }
+            }
+        } else {
+            return Err(("inconclusive".into(), format!("the link hook reported {} of {total} calls", links.len())));
         }
         let mut by_ret: Vec<&Rec> = results.iter().collect();
         by_ret.sort_by_key(|r| r.2);
@@ -624,7 +653,7 @@ pub fn run(args: &Args) {
     let (seed, shard) = (rep.seed, rep.shard);
     let refresh = calibrate_refresh();
     rep.notes.insert("lru_overwrite_refreshes_recency".into(), json!(refresh));
-    let mut record = |rep: &mut Report, what: &str, n: u64, h: u64, nontrivial: bool, desc: serde_json::Value, res: Result<(), (String, String)>| {
+    let record = |rep: &mut Report, what: &str, n: u64, h: u64, nontrivial: bool, desc: serde_json::Value, res: Result<(), (String, String)>| {
         rep.evaluations += 1;
         if nontrivial {
             rep.nontrivial.insert(h);
